@@ -12,7 +12,7 @@ Case shape (self-contained, JSON):
      | ["repeat", E, k] | ["power", E, k] | ["choice", [[E, [m, e]], ...], limit|null]
      | ["cond", pred, E, E] | ["until", E, n]            pred := ["lenGt", k] | ["always"] | ["never"]
   prims in the Lean model: mutUniform mutSwap selRandom selSample selTop selBottom selFirst selLast
-     recUniform recSample recKPoint recSegmented recOrder recAverage recWeightedAverage selProportional; oracle-only prims (run on the real code, property
+     recUniform recSample recKPoint recSegmented recOrder recPartiallyMapped recCycle recAverage recWeightedAverage selProportional; oracle-only prims (run on the real code, property
      oracle only, no model prediction): see ORACLE_ONLY.
 
 Recorded-oracle technique: every `random.Random` owned by an operator of the expression is replaced
@@ -29,9 +29,8 @@ from harness.common.framework import Prop
 
 MODEL_PRIMS = ['mutUniform', 'mutSwap', 'selRandom', 'selSample', 'selTop', 'selBottom', 'selFirst',
                'selLast', 'recUniform', 'recSample', 'recKPoint', 'recSegmented', 'recOrder', 'recAverage',
-               'recWeightedAverage', 'selProportional']
-ORACLE_ONLY = ['recPartiallyMapped', 'recCycle',
-               'selTopCluster', 'selBottomCluster', 'nsga2SortPipeline',
+               'recWeightedAverage', 'selProportional', 'recPartiallyMapped', 'recCycle']
+ORACLE_ONLY = ['selTopCluster', 'selBottomCluster', 'nsga2SortPipeline',
                'lambdaDrop1', 'lambdaReverse', 'forEachFlatten']
 SELECTORS = {'Random', 'Sample', 'Proportional', 'Top', 'Bottom', 'First', 'Last'}
 
@@ -175,6 +174,96 @@ def gen_weights(rng):
   return [rng.choice(WEIGHT_POOL) for _ in range(n)]
 
 
+def gen_where(rng, prim):
+  """A `where` filter of the modelled family (what a filter can see of a node: kind 0 float / 1 single
+  choice / 2 multi-choice node / 3 subchoice; the chosen candidate; the subchoice index)."""
+  if prim == 'mutSwap':
+    return rng.choice([['any'], ['kinds', [2]], ['kinds', [0, 1, 3]], ['not', ['kinds', [2]]], ['kinds', [2, 3]]])
+
+  def atom():
+    k = rng.below(6)
+    if k == 0:
+      return ['kinds', rng.sample([0, 1, 2, 3], rng.randint(1, 3))]
+    if k == 1:
+      return ['kinds', [rng.choice([0, 1, 2, 3])]]
+    if k == 2:
+      return ['valueLt', rng.randint(1, 3)]
+    if k == 3:
+      return ['valueEq', rng.below(3)]
+    if k == 4:
+      return ['indexEq', rng.below(3)]
+    return ['any']
+  k = rng.below(5)
+  if k == 0:
+    return ['not', atom()]
+  if k == 1:
+    return ['and', atom(), atom()]
+  return atom()
+
+
+def make_sched(sj, top=False):
+  """The pg.evolution.scalars object for a schedule of the family."""
+  from pyglove.ext import scalars
+  h = sj[0]
+  if h == 'c':
+    return scalars.Constant(sj[1]) if top else sj[1]
+  if h == 'step':
+    return scalars.STEP
+  a, b = make_sched(sj[1]), make_sched(sj[2])
+  if isinstance(a, int) and isinstance(b, int):
+    a = scalars.Constant(a)
+  if h == 'add':
+    return a + b
+  if h == 'sub':
+    return a - b
+  if h == 'mul':
+    return a * b
+  if h == 'floordiv':
+    return a // b
+  if h == 'mod':
+    return a % b
+  raise ValueError(sj)
+
+
+def make_where(f):
+  """The Python callable for a filter of the family (robust on nodes without a decision point)."""
+  def info(d):
+    import pyglove as pg
+    sp = d.spec
+    if isinstance(sp, pg.geno.Float):
+      return (0, 0, 0)
+    if isinstance(sp, pg.geno.Choices):
+      if sp.is_subchoice:
+        return (3, d.value, sp.subchoice_index)
+      if sp.num_choices == 1:
+        return (1, d.value, 0)
+      return (2, 0, 0)
+    return None
+
+  def ev(f, n):
+    h = f[0]
+    if h == 'any':
+      return True
+    if h == 'kinds':
+      return n[0] in f[1]
+    if h == 'valueLt':
+      return n[1] < f[1]
+    if h == 'valueEq':
+      return n[1] == f[1]
+    if h == 'indexEq':
+      return n[2] == f[1]
+    if h == 'not':
+      return not ev(f[1], n)
+    if h == 'and':
+      return ev(f[1], n) and ev(f[2], n)
+    raise ValueError(f)
+
+  def where(d):
+    n = info(d)
+    return True if n is None else bool(ev(f, n))
+  return where
+
+
 class ExprGen:
   """Operator expressions from the combinator grammar (depth <= 4), mostly well-typed:
   `fit` tracks whether every element still carries a reward (Top/Bottom need it), segment-wise
@@ -183,11 +272,34 @@ class ExprGen:
   def __init__(self, rng, npop, sloppy=False, oracle_only=False):
     self.rng, self.npop, self.sloppy, self.oo = rng, npop, sloppy, oracle_only
 
+  def sched(self, nonneg=True):
+    """A step-driven integer schedule (pg.evolution.scalars): STEP, constants, + - * // %."""
+    r = self.rng
+    k = r.below(7 if nonneg else 8)
+    st = ['step']
+    if k == 0:
+      return ['sched', ['mod', st, ['c', r.randint(2, 4)]]]
+    if k == 1:
+      return ['sched', ['floordiv', st, ['c', r.randint(2, 3)]]]
+    if k == 2:
+      return ['sched', ['add', ['mod', st, ['c', 2]], ['c', r.randint(0, 2)]]]
+    if k == 3:
+      return ['sched', ['mul', ['mod', st, ['c', 3]], ['c', r.randint(1, 2)]]]
+    if k == 4:
+      return ['sched', ['c', r.randint(0, 3)]]
+    if k == 5:
+      return ['sched', ['floordiv', ['add', st, ['c', 1]], ['c', 2]]]
+    if k == 6:
+      return ['sched', ['mod', ['mul', st, ['c', 3]], ['c', 4]]]
+    return ['sched', ['sub', ['c', r.randint(1, 3)], st]]            # may go negative
+
   def nspec(self):
     r = self.rng
     k = r.below(10)
     if k == 0:
       return None
+    if r.chance(0.1):
+      return self.sched()
     if k <= 2:
       return ['frac', r.choice([1, 2, 3, 4]), 2]
     return r.choice([0, 1, 1, 2, 2, 3, 4, self.npop, self.npop + 2])
@@ -219,13 +331,9 @@ class ExprGen:
     """An operation that creates new DNA."""
     r = self.rng
     k = r.weighted([(5, 'mutUniform'), (3, 'mutSwap'), (3, 'recUniform'), (2, 'recSample'),
-                    (3, 'recKPoint'), (2, 'recSegmented'), (3, 'recOrder'), (3, 'recAverage'),
-                    (2, 'recWeightedAverage')] +
-                   ([(7, 'oo')] if self.oo else []))
-    if k == 'oo':
-      k = r.choice(['recPartiallyMapped', 'recCycle'])
-      return ['seq', self.two_parents(fit), ['prim', k]]
-    if k == 'recOrder':
+                    (3, 'recKPoint'), (2, 'recSegmented'), (2, 'recOrder'), (2, 'recPartiallyMapped'),
+                    (2, 'recCycle'), (3, 'recAverage'), (2, 'recWeightedAverage')])
+    if k in ('recOrder', 'recPartiallyMapped', 'recCycle'):
       e = ['prim', k]
       return e if self.sloppy and r.chance(0.3) else ['seq', self.two_parents(fit), e]
     if k == 'recKPoint':
@@ -236,6 +344,8 @@ class ExprGen:
       if r.chance(0.15):
         cuts = r.shuffle(cuts + [r.below(7)])
       return ['seq', self.two_parents(fit), ['prim', k, cuts]]
+    if k in ('mutUniform', 'mutSwap') and r.chance(0.35):
+      return ['prim', k, gen_where(r, k)]
     return ['prim', k]
 
   def expr(self, depth, fit=True):
@@ -280,7 +390,7 @@ class ExprGen:
     if k == 'slice':
       a, fa = self.expr(depth - 1, fit)
       if r.chance(0.3):
-        s = ['index', r.choice([0, 0, 1, -1, -2, 2, 5])]
+        s = ['index', self.sched(nonneg=False) if r.chance(0.25) else r.choice([0, 0, 1, -1, -2, 2, 5])]
       else:
         s = ['range', r.choice([None, 0, 1, 2]), r.choice([None, None, 1, 2, 3, 9]), r.choice([1, 1, 1, 2, 3])]
       return ['slice', a, s], fa
@@ -290,6 +400,8 @@ class ExprGen:
       if k == 'power' and not fa:
         # the body must accept its own output: avoid reward-hungry selectors inside
         a, fa = self.expr_nofit(depth - 1)
+      if r.chance(0.25):
+        return [k, a, self.sched(nonneg=False)], (fa if k == 'repeat' else fa and fit)
       return [k, a, n], (fa if n > 0 or k == 'repeat' else fit)
     if k == 'choice':
       items = []
@@ -473,7 +585,9 @@ class C14(Prop):
           'conflicting parents (retry / last-resort paths of _merge_multi_choice, measured per run); Proportional '
           'with tiny / zero / equal weights and fractional n; a driver-level stream (Evolution, regularized_evolution, '
           'hill_climb, nsga2 for 8-14 propose/feedback rounds with pass-through reproduction stages: no evaluated '
-          'DNA object may change or be proposed again). Non-trivial: the expression returns '
+          'DNA object may change or be proposed again); permutation points of size 4-7 for Order / PartiallyMapped / '
+          'Cycle; `where` filters of a closed family on Uniform / Swap; step-driven scalars (STEP, + - * // %) in '
+          'the integer parameters, each case run at a step 0-9. Non-trivial: the expression returns '
           'normally, the population is non-empty and at least one primitive of the expression made a PRNG '
           'draw or produced a new DNA; distinct: by (spec, population, expression, seed).')
   trusted_base = [
@@ -506,6 +620,16 @@ class C14(Prop):
     # the driver level: Evolution and the shipped algorithms with pass-through reproduction stages
     for i in range(40 if tier == 'quick' else 400):
       yield self.gen_evolve_case(rng.fork())
+    # permutation points of size 4-7 (pg.permutate): long re-mapping chains of PMX, several cycles of CX
+    for i in range(75 if tier == 'quick' else 750):
+      r = rng.fork()
+      size = r.randint(4, 7)
+      perm = ['choices', size, [_C0] * size, True, False]
+      spec = ['space', [perm] + ([gen_point(r, 0)] if r.chance(0.3) else []) + ([perm] if r.chance(0.2) else [])]
+      pop = [{'nums': gen_dna(r, spec), 'fit': r.randint(-3, 6)} for _ in range(2)]
+      prim = ['prim', r.choice(['recPartiallyMapped', 'recPartiallyMapped', 'recCycle', 'recOrder'])]
+      e = r.choice([prim, prim, ['repeat', prim, 2], ['seq', prim, ['seq', ['prim', 'selFirst', 2], prim]]])
+      yield {'spec': spec, 'pop': pop, 'expr': e, 'seed': r.below(1 << 30), 'step': 0}
     # constrained multi-choices with many conflicting parents: the retry and last-resort paths of
     # `_merge_multi_choice` (about one case in eight exhausts the 8 attempts)
     for i in range(90 if tier == 'quick' else 900):
@@ -526,7 +650,7 @@ class C14(Prop):
       for prim in FIXED_PRIMS:
         r = rng.fork()
         pop = [{'nums': gen_dna(r, spec), 'fit': r.randint(-3, 6)} for _ in range(r.choice([2, 2, 3, 4]))]
-        if prim[1] in ('recKPoint', 'recSegmented', 'recOrder'):
+        if prim[1] in ('recKPoint', 'recSegmented', 'recOrder', 'recPartiallyMapped', 'recCycle'):
           pop = pop[:2]
         yield {'spec': spec, 'pop': pop, 'expr': prim, 'seed': r.below(1 << 30)}
 
@@ -585,7 +709,7 @@ class C14(Prop):
     e, _ = g.expr(r.weighted([(1, 0), (3, 1), (5, 2), (5, 3), (4, 4)]))
     if mode == 'sloppy' and r.chance(0.3) and pop:
       pop[r.below(len(pop))]['fit'] = None
-    return {'spec': spec, 'pop': pop, 'expr': e, 'seed': r.below(1 << 30)}
+    return {'spec': spec, 'pop': pop, 'expr': e, 'seed': r.below(1 << 30), 'step': r.below(10)}
 
   # -- real objects ------------------------------------------------------------------------
   def cached_spec(self, s):
@@ -626,6 +750,8 @@ class C14(Prop):
       return (ctx['seed'] * 1000003 + ctx['n'] * 7919) % (1 << 31)
 
     def nval(n):
+      if isinstance(n, list) and n[0] == 'sched':
+        return make_sched(n[1], top=True)
       if isinstance(n, list):
         return n[1] / float(1 << n[2])
       return n
@@ -636,9 +762,9 @@ class C14(Prop):
     if h == 'prim':
       name = e[1]
       if name == 'mutUniform':
-        return mutators.Uniform(seed=seed())
+        return mutators.Uniform(where=make_where(e[2]) if len(e) > 2 else None, seed=seed())
       if name == 'mutSwap':
-        return mutators.Swap(seed=seed())
+        return mutators.Swap(where=make_where(e[2]) if len(e) > 2 else None, seed=seed())
       if name == 'selRandom':
         return selectors.Random(nval(e[2]), replacement=e[3], seed=seed())
       if name == 'selSample':
@@ -710,12 +836,12 @@ class C14(Prop):
       s = e[2]
       a = self.build_expr(e[1], ctx)
       if s[0] == 'index':
-        return a[s[1]]
+        return a[nval(s[1])]
       return a[slice(s[1], s[2], s[3])]
     if h == 'repeat':
-      return self.build_expr(e[1], ctx) * e[2]
+      return self.build_expr(e[1], ctx) * nval(e[2])
     if h == 'power':
-      return self.build_expr(e[1], ctx) ** e[2]
+      return self.build_expr(e[1], ctx) ** nval(e[2])
     if h == 'choice':
       items = [(self.build_expr(it[0], ctx), unratio(it[1])) for it in e[1]]
       if len(items) == 1 and e[2] is None:
@@ -888,7 +1014,7 @@ class C14(Prop):
     _rec._merge_multi_choice = mm_spy             # pylint: disable=protected-access
     try:
       try:
-        out = op(pop_arg)
+        out = op(pop_arg, step=case.get('step', 0))
       except Exception as ex:     # pylint: disable=broad-except
         err = type(ex).__name__
     finally:
@@ -992,7 +1118,7 @@ class C14(Prop):
         excused = (num_parents is not None and len(ins) != num_parents) or (
             c['cls'] == 'Segmented' and self.bad_cuts(c['op'], case['spec'])) or (
                 c['cls'] == 'Uniform' and c['mod'] == 'mutators' and c['err'] == 'RuntimeError'
-                and spec_stats(case['spec'])['points'] == 0)
+                and (spec_stats(case['spec'])['points'] == 0 or c['op'].where is not None))
         if not excused and all(self.is_valid(spec, d) and self.is_aligned(spec, d) for d in ins):
           fail('raises-on-valid-parents:%s:%s' % (c['cls'], c['err']),
                '%s raised %s on valid parents %r' % (c['cls'], c['err'], ins))
@@ -1214,7 +1340,8 @@ class C14(Prop):
     for ind in case['pop']:
       pop.append({'nums': ind['nums'], 'beliefs': self.positional_beliefs(case['spec'], ind['nums']),
                   'fit': ind.get('fit')})
-    return {'spec': case['spec'], 'pop': pop, 'oracle': out['oracle'], 'expr': case['expr']}
+    return {'spec': case['spec'], 'pop': pop, 'oracle': out['oracle'], 'expr': case['expr'],
+            'step': case.get('step', 0)}
 
   @staticmethod
   def positional_beliefs(spec, nums):
@@ -1333,6 +1460,10 @@ class C14(Prop):
         h.append('spec:' + k)
     for p in sorted(set(expr_prims(case['expr']))):
       h.append('prim:' + p)
+    if '"kinds"' in json.dumps(case['expr']) or '"valueLt"' in json.dumps(case['expr']) or '"indexEq"' in json.dumps(case['expr']) or '"valueEq"' in json.dumps(case['expr']):
+      h.append('mutator-with-where-filter')
+    if '"sched"' in json.dumps(case['expr']):
+      h.append('scheduled-scalar(step=%d)' % case.get('step', 0))
     for p in sorted(set(expr_heads(case['expr']))):
       if p != 'prim':
         h.append('comb:' + p)
@@ -1470,7 +1601,7 @@ FIXED_SPECS += [
                 False, False], ['float', [-1, 0], [1, 0]]]],
 ]
 FIXED_PRIMS = [['prim', 'mutUniform'], ['prim', 'mutSwap'], ['prim', 'recUniform'], ['prim', 'recSample'],
-               ['prim', 'recKPoint', 1], ['prim', 'recKPoint', 2], ['prim', 'recSegmented', [1]], ['prim', 'recOrder'],
+               ['prim', 'recKPoint', 1], ['prim', 'recKPoint', 2], ['prim', 'recSegmented', [1]], ['prim', 'recOrder'], ['prim', 'recPartiallyMapped'], ['prim', 'recCycle'],
                ['prim', 'recAverage'], ['prim', 'recWeightedAverage'], ['power', ['prim', 'recAverage'], 2],
                ['prim', 'selRandom', 2, False], ['prim', 'selRandom', 3, True], ['prim', 'selSample', 2],
                ['prim', 'selTop', 1], ['prim', 'selBottom', ['frac', 1, 1]], ['prim', 'selFirst', 1],
